@@ -199,6 +199,14 @@ func declaredMax(blob []byte) uint64 {
 	return max
 }
 
+// damageAllocatable reports whether a damaged copy of a blob still declares sizes the statement calls
+// "small enough to allocate": not more than the intact blob declares plus c19MaxDeclared. A flipped
+// bit in a size varint or in a zstd frame header makes Deserialize allocate what it says (gigabytes)
+// before it returns its error; histories in other checks skip such damage the way C19 does.
+func damageAllocatable(orig, bad []byte) bool {
+	return declaredMax(bad) <= declaredMax(orig)+c19MaxDeclared
+}
+
 // zstdDeclared returns what a zstd frame header declares it will need
 // (frame content size or window size), 0 if it is not a parsable header.
 func zstdDeclared(b []byte) uint64 {
